@@ -41,6 +41,19 @@ def template(e):
     return ast.unparse(e2), axes
 
 
+def template_seq(e):
+    """(template, axis letters in source order)"""
+    import copy
+    seq = []
+    e2 = copy.deepcopy(e)
+    for n in sorted((x for x in ast.walk(e2) if isinstance(x, ast.Name)), key=lambda x: (x.lineno, x.col_offset)):
+        a = axis_of(n.id)
+        if a:
+            seq.append(a[0])
+            n.id = a[1]
+    return ast.unparse(e2), tuple(seq)
+
+
 def groups(fn):
     for n in ast.walk(fn):
         if isinstance(n, ast.BoolOp):
@@ -103,6 +116,25 @@ def run(repo, res, rule, modfilter):
                         res.ob(f"{rule}:{qn}:{norm(e)}", False, {"rule": rule, "function": qn, "member": norm(e), "axes": sorted(axes)})
                         res.add(Finding(rule, m.rel, qn, e, f"this member of a per-axis group mixes the axes {sorted(axes)} where its siblings use one axis each "
                                         "(same expression shape): one coordinate is combined with the bound / component of another", e.lineno))
+            # members that combine all three axes (`mask_surf_y & mask_surf_z & mask_inside_x` and its two siblings): in a group of one
+            # template where the siblings name each axis exactly once, a member that names an axis twice (and another not at all) is the deviant
+            by_seq = {}
+            for e in members:
+                t, seq = template_seq(e)
+                if len(seq) == 3:
+                    by_seq.setdefault(t, []).append((seq, e))
+            for t, lst in by_seq.items():
+                full = [x for x in lst if len(set(x[0])) == 3]
+                if len(lst) >= 3 and len(full) >= 2:
+                    for seq, e in lst:
+                        if len(set(seq)) < 3:
+                            key = (qn, norm(e))
+                            if key in seen:
+                                continue
+                            seen.add(key)
+                            res.ob(f"{rule}:{qn}:{norm(e)}", False, {"rule": rule, "function": qn, "member": norm(e), "axes": list(seq)})
+                            res.add(Finding(rule, m.rel, qn, e, f"this member of a per-axis group names the axes {list(seq)} where each of its siblings (same "
+                                            "expression shape) names every axis exactly once: one axis is constrained twice and another not at all", e.lineno))
             res.ob(f"{rule}:{qn}:group@{root.lineno}", True, None, nontrivial=False)
     res.analysed[f"{rule}_groups"] = n_groups
     return n_groups
